@@ -8,7 +8,10 @@ import (
 	"os"
 	"runtime"
 
-	_ "verif/mc/c19"
+	"strconv"
+	"strings"
+
+	"verif/mc/c19"
 	"verif/mc/engine"
 )
 
@@ -19,7 +22,19 @@ func main() {
 	nshards := flag.Int("nshards", 0, "number of shards (internal)")
 	out := flag.String("out", "", "worker output (internal)")
 	replay := flag.String("replay", "", "replay file")
+	oneexec := flag.String("oneexec", "", "run one execution of an inner phase body (internal)")
+	choices := flag.String("choices", "", "choice prefix for -oneexec")
 	flag.Parse()
+	if *oneexec != "" {
+		var ch []int
+		for _, f := range strings.Split(*choices, ",") {
+			if f != "" {
+				v, _ := strconv.Atoi(f)
+				ch = append(ch, v)
+			}
+		}
+		os.Exit(c19.RunOneExec(*oneexec, *tier, ch))
+	}
 	if *replay != "" {
 		os.Exit(engine.RunReplay(*replay))
 	}
